@@ -294,8 +294,8 @@ def events(world):
 class RefVM(_p._Unpickler):
     """Pure-Python unpickler, steppable one opcode at a time, resolving everything to stubs."""
 
-    def __init__(self, data, world=None, typed=False):
-        super().__init__(io.BytesIO(data))
+    def __init__(self, data, world=None, typed=False, buffers=None):
+        super().__init__(io.BytesIO(data), buffers=buffers)
         self.typed = typed
         self.consumed = {}  # id -> object: mutable containers already handed to a call / applied as state
         self.late_mutation = False
